@@ -99,6 +99,24 @@ func keys(m map[string]bool) []string {
 	return out
 }
 
+// harnessFile is any Go file under /verif/harness/<prop>/ with a //verif:pkg directive.
+// Files named *_sym.go are used only in the symbolic build, *_native.go only for replay.
+type harnessFile struct {
+	Path   string
+	PkgRel string
+}
+
+var allHarnessFiles []harnessFile
+
+// directives of all harness files of the property (they apply to every harness)
+var (
+	globalStubs [][2]string
+	globalNoops []string
+)
+
+func forSym(path string) bool    { return !strings.HasSuffix(path, "_native.go") }
+func forNative(path string) bool { return !strings.HasSuffix(path, "_sym.go") }
+
 // loadSpecs parses the //verif: directives of the harness files of a property ("" = all).
 func loadSpecs(prop string) ([]*harnessSpec, error) {
 	pat := filepath.Join(verifDir, "harness", "*", "*.go")
@@ -138,6 +156,11 @@ func loadSpecs(prop string) ([]*harnessSpec, error) {
 		}
 		if pkgRel == "" {
 			return nil, fmt.Errorf("%s: missing //verif:pkg", f)
+		}
+		allHarnessFiles = append(allHarnessFiles, harnessFile{Path: f, PkgRel: pkgRel})
+		if forSym(f) {
+			globalStubs = append(globalStubs, fileStubs...)
+			globalNoops = append(globalNoops, fileNoops...)
 		}
 		for _, d := range af.Decls {
 			fd, ok := d.(*ast.FuncDecl)
@@ -287,11 +310,17 @@ func loadProgram(sc *scratch, specs []*harnessSpec) (*loaded, error) {
 	rels := map[string]bool{}
 	for _, s := range specs {
 		rels[s.PkgRel] = true
-		src, err := os.ReadFile(s.File)
+	}
+	for _, hf := range allHarnessFiles {
+		if !forSym(hf.Path) {
+			continue
+		}
+		rels[hf.PkgRel] = true
+		src, err := os.ReadFile(hf.Path)
 		if err != nil {
 			return nil, err
 		}
-		overlay[filepath.Join(repoDir, s.PkgRel, "zz_verif_"+filepath.Base(s.File))] = src
+		overlay[filepath.Join(repoDir, hf.PkgRel, "zz_verif_"+filepath.Base(hf.Path))] = src
 	}
 	// sibling harness files of the same property dir that target the same packages (helpers)
 	var patterns []string
@@ -486,16 +515,21 @@ func cmdCheck(args []string) int {
 			fmt.Fprintf(os.Stderr, "INCONCLUSIVE harness function %s not found\n", s.Func)
 			return 2
 		}
-		for _, st := range s.Stubs {
+		for _, st := range globalStubs {
 			orig := findFunc(ld.prog, st[0])
-			repl := pkg.Func(st[1])
+			var repl *ssa.Function
+			for _, p := range ld.pkgs {
+				if f := p.Func(st[1]); f != nil {
+					repl = f
+				}
+			}
 			if orig == nil || repl == nil {
 				fmt.Fprintf(os.Stderr, "INCONCLUSIVE harness-mismatch: stub %s -> %s not resolvable\n", st[0], st[1])
 				return 2
 			}
 			eng.Stub(orig, repl)
 		}
-		for _, n := range s.Noops {
+		for _, n := range globalNoops {
 			eng.NoopFuncs[n] = true
 		}
 		h := &symgo.Harness{Name: s.Name, Fn: fn, Bounds: s.Bounds, MaxPaths: s.MaxPaths, MaxSteps: s.MaxSteps, MaxFanout: s.MaxFanout,
@@ -737,14 +771,14 @@ func nativeReplay(sc *scratch, s *harnessSpec, all []*harnessSpec, v symgo.Viola
 	}
 	repl := map[string]string{}
 	// harness files for this package
-	for _, o := range all {
-		if o.PkgRel != s.PkgRel {
+	for _, hf := range allHarnessFiles {
+		if hf.PkgRel != s.PkgRel || !forNative(hf.Path) {
 			continue
 		}
-		dst := filepath.Join(dir, "h_"+filepath.Base(o.File))
-		b, _ := os.ReadFile(o.File)
+		dst := filepath.Join(dir, "h_"+filepath.Base(hf.Path))
+		b, _ := os.ReadFile(hf.Path)
 		os.WriteFile(dst, b, 0o644)
-		repl[filepath.Join(repoDir, s.PkgRel, "zz_verif_"+filepath.Base(o.File))] = dst
+		repl[filepath.Join(repoDir, s.PkgRel, "zz_verif_"+filepath.Base(hf.Path))] = dst
 	}
 	api, err := apiSource("native", name)
 	if err != nil {
